@@ -269,12 +269,9 @@ const preludeDecls = `(set-option :produce-models true)
 // preludeAxioms are quantified axioms of the model; each is included in a query only if one
 // of the function symbols in its patterns occurs in the query (relevance filter).
 var preludeAxioms = []string{
-	`(assert (forall ((a (Array Int Int)) (o Int) (n Int) (m Int)) (! (=> (and (<= o m) (< m (+ o n))) (= (sat (str_of_bytes a o n) (- m o)) (bclamp (select a m)))) :pattern ((str_of_bytes a o n) (select a m)))))`,
 	`(assert (forall ((c Int)) (! (and (= (slen (str1 c)) 1) (= (sat (str1 c) 0) (bclamp c))) :pattern ((str1 c)))))`,
 	`(assert (forall ((c Int) (n Int)) (! (=> (<= 0 n) (= (slen (srep c n)) n)) :pattern ((srep c n)))))`,
 	`(assert (forall ((c Int) (n Int) (k Int)) (! (=> (and (<= 0 k) (< k n)) (= (sat (srep c n) k) (bclamp c))) :pattern ((sat (srep c n) k)))))`,
-	`(assert (forall ((a (Array Int Int)) (o Int) (n Int)) (! (=> (<= 0 n) (= (slen (str_of_bytes a o n)) n)) :pattern ((str_of_bytes a o n)))))`,
-	`(assert (forall ((a (Array Int Int)) (o Int) (n Int) (k Int)) (! (=> (and (<= 0 k) (< k n)) (= (sat (str_of_bytes a o n) k) (bclamp (select a (+ o k))))) :pattern ((sat (str_of_bytes a o n) k)))))`,
 	`(assert (forall ((s Str) (i Int) (j Int) (m Int)) (! (=> (and (<= 0 i) (<= i m) (< m j) (<= j (slen s))) (= (sat (ssub s i j) (- m i)) (sat s m))) :pattern ((ssub s i j) (sat s m)))))`,
 	`(assert (forall ((s Str) (a Int) (b Int) (c Int) (d Int)) (! (=> (and (<= 0 a) (<= a b) (<= b (slen s)) (<= 0 c) (<= c d) (<= d (- b a))) (= (ssub (ssub s a b) c d) (ssub s (+ a c) (+ a d)))) :pattern ((ssub (ssub s a b) c d)))))`,
 	// decomposition of a string into decode steps: ridx(s,k) is the byte index of the k-th step
